@@ -183,3 +183,23 @@ Proof.
   destruct (frag_recv_chk st src pkt) as [[st' d]| |] eqn:Er; [apply IH|apply IH|].
   exfalso. eapply frag_recv_chk_no_panic; eauto.
 Qed.
+
+(* ---- parseInitHello never panics: every byte string ---- *)
+Lemma two_left (x : bytes) (k : nat) : length x = (k + 2)%nat -> exists hi lo, skipn k x = [hi; lo].
+Proof.
+  intros H. assert (L : length (skipn k x) = 2%nat) by (rewrite skipn_length; lia).
+  destruct (skipn k x) as [|hi [|lo [|z t]]]; cbn in L; try lia. eauto.
+Qed.
+
+Theorem parse_init_hello_no_panic body site : parse_init_hello_chk body <> Panic site.
+Proof.
+  unfold parse_init_hello_chk. destruct (Z.ltb_spec (Z.of_nat (length body)) 2) as [L|L]; [discriminate|].
+  unfold slice_from. rewrite lenN_spec.
+  destruct ((Z.of_nat (length body) - 2 <? 0)%Z || (Z.of_N (N.of_nat (length body)) <? Z.of_nat (length body) - 2)%Z) eqn:E; [lia|].
+  rewrite dropN_skipn.
+  destruct (two_left body (length body - 2)) as [hi [lo Hs]]; [lia|].
+  replace (N.to_nat (Z.to_N (Z.of_nat (length body) - 2))) with (length body - 2)%nat by lia.
+  rewrite Hs. unfold be16.
+  destruct (Z.ltb_spec (Z.of_nat (length body) - 2 - Z.of_N (256 * hi + lo)) 0) as [S|S]; [discriminate|].
+  match goal with |- context [if ?b then _ else _] => destruct b eqn:E2 end; [lia|discriminate].
+Qed.
